@@ -2,7 +2,7 @@ use smallvec::smallvec;
 use std::{borrow::Cow, time::Duration};
 
 use autosar_data_specification::{
-    AttributeName, AttributeSpec, AutosarVersion, ContentMode, ElementMultiplicity, ElementName,
+    AttributeName, AttributeSpec, AutosarVersion, ContentMode, ElementMultiplicity, ElementName, ElementType,
 };
 use fxhash::FxHashMap;
 use parking_lot::RwLock;
@@ -498,7 +498,17 @@ impl ElementRaw {
         // Arc overrides clone() so that it only manipulates the reference count, so a separate deep_copy operation is needed here.
         // Additionally, implementing this manually provides the opportunity to filter out
         // elements that are not compatible with the version of the current file.
-        let newelem = other.0.read().deep_copy(version)?;
+        let other_locked = other.0.read();
+        // the copy gets the element type which the specification of this element prescribes for a sub element of that name
+        let (dest_type, _) = self
+            .elemtype
+            .find_sub_element(other_locked.elemname, version as u32)
+            .ok_or(AutosarDataError::InvalidSubElement {
+                parent: self.element_name(),
+                element: other_locked.elemname,
+            })?;
+        let newelem = other_locked.deep_copy(version, dest_type)?;
+        drop(other_locked);
         let path = self.path_unchecked()?;
 
         // set the parent of the newelem - the methods path(), containing_file(), etc become available on newelem
@@ -538,10 +548,10 @@ impl ElementRaw {
     }
 
     /// perform a deep copy of an element, but keep only those sub elements etc, which are compatible with `target_version`
-    fn deep_copy(&self, target_version: AutosarVersion) -> Result<Element, AutosarDataError> {
+    fn deep_copy(&self, target_version: AutosarVersion, elemtype: ElementType) -> Result<Element, AutosarDataError> {
         let copy_wrapped = ElementRaw {
             elemname: self.elemname,
-            elemtype: self.elemtype,
+            elemtype,
             content: SmallVec::with_capacity(self.content.len()),
             attributes: SmallVec::with_capacity(self.attributes.len()),
             parent: ElementOrModel::None,
@@ -559,7 +569,7 @@ impl ElementRaw {
                     spec: cdataspec,
                     required,
                     version: attr_version_mask,
-                } = self.elemtype.find_attribute_spec(attribute.attrname).ok_or(
+                } = elemtype.find_attribute_spec(attribute.attrname).ok_or(
                     AutosarDataError::VersionIncompatibleData {
                         version: target_version,
                     },
@@ -587,18 +597,25 @@ impl ElementRaw {
                     ElementContent::Element(sub_elem) => {
                         let sub_elem_name = sub_elem.element_name();
                         // since find_sub_element already considers the version, finding the element also means it's valid in the target_version
-                        if self
-                            .elemtype
-                            .find_sub_element(sub_elem_name, target_version as u32)
-                            .is_some()
-                        {
-                            if let Ok(copied_sub_elem) = sub_elem.0.read().deep_copy(target_version) {
+                        if let Some((sub_elemtype, _)) = elemtype.find_sub_element(sub_elem_name, target_version as u32) {
+                            if let Ok(copied_sub_elem) = sub_elem.0.read().deep_copy(target_version, sub_elemtype) {
                                 copied_sub_elem.0.write().parent = ElementOrModel::Element(copy_wrapped.downgrade());
                                 copy.content.push(ElementContent::Element(copied_sub_elem));
                             }
                         }
                     }
                     ElementContent::CharacterData(cdata) => {
+                        // if the copy has a different type than the original, then the value must be valid for that type
+                        if elemtype != self.elemtype
+                            && elemtype.content_mode() != ContentMode::Mixed
+                            && !elemtype
+                                .chardata_spec()
+                                .is_some_and(|spec| CharacterData::check_value(cdata, spec, target_version))
+                        {
+                            return Err(AutosarDataError::VersionIncompatibleData {
+                                version: target_version,
+                            });
+                        }
                         copy.content.push(ElementContent::CharacterData(cdata.clone()));
                     }
                 }
